@@ -168,7 +168,9 @@ func (c *Ctx) Sort(t types.Type) string {
 	case *types.Slice:
 		es := c.Sort(u.Elem())
 		name := "Sl_" + mangle(es)
-		c.decl("dt:"+name, fmt.Sprintf("(declare-datatypes ((%s 0)) (((mk_%s (arr_%s (Array Int %s)) (len_%s Int) (nil_%s Bool)))))", name, name, name, es, name, name))
+		c.decl("dt:"+name, fmt.Sprintf("(declare-datatypes ((%s 0)) (((mk_%s (arr_%s (Array Int %s)) (rawlen_%s Int) (nil_%s Bool)))))", name, name, name, es, name, name))
+		// the length of a slice is never negative (a negative raw field cannot arise from Go code)
+		c.decl("fun:len_"+name, fmt.Sprintf("(define-fun len_%s ((s %s)) Int (ite (>= (rawlen_%s s) 0) (rawlen_%s s) 0))", name, name, name, name))
 		return name
 	case *types.Array:
 		return fmt.Sprintf("(Array Int %s)", c.Sort(u.Elem()))
